@@ -155,7 +155,10 @@ def emit_qmat(name, M):
         for j in range(M.shape[1]):
             q, ok = q4_of_complex(M[i, j])
             allok = allok and ok
-            ents.append("Q4.mk4 %s %s %s %s" % tuple(_rat(v) for v in q))
+            if all(v.denominator == 1 for v in q):
+                ents.append("Q4.q %s" % " ".join("%d" % v if v >= 0 else "(%d)" % v for v in q))
+            else:
+                ents.append("Q4.mk4 %s %s %s %s" % tuple(_rat(v) for v in q))
         rows.append("[" + ", ".join(ents) + "]")
     return "def %s : QMat := [\n  %s]\n" % (name, ",\n  ".join(rows)), allok
 
@@ -325,8 +328,6 @@ def gen(ctx):
             recog = recog and ok
             txt += t
     ctx.extra["M_entries_recognised_exactly"] = recog
-    # mix sets the pipeline class picks
-    txt += "def halfIsInvSqrt2Float : Bool := %s\n" % ("true" if half_float() == 0.7071067811865475 or abs(half_float() ** 2 - 0.5) < 1e-15 else "false")
     # traced point maps
     tr = trace_local_synodic()
     vidx = {n: i for i, n in enumerate(LS_VARS)}
